@@ -529,8 +529,21 @@ ClosedIsEmpty == sclosed => (Registered = {} /\ \A c \in Ctx : reqMsg[c] = 0 /\ 
 \* a call blocked on a closed context / socket can leave (promptness is checked on traces)
 CloseUnblocks == \A t \in Thread : (call[t] # NULL /\ cclosed[call[t].c]) => (SendCanWake(t) \/ RecvCanWake(t))
 
-\* C04 liveness (under FairSpec): an outstanding request with a ready pipe is handed off
+\* C04 / C18 liveness, checked by TLC under FairSpec (Req_live.cfg; the library's steps, the resend timers and the peers
+\* taking what they are sent are fair - replies, connections coming and going, deadlines and Close are the
+\* environment's and are not):
 Outstanding(c) == reqID[c] # 0 /\ (sendMsg[c] # 0 \/ reqMsg[c] # 0) /\ ~cclosed[c]
+\* a request that is waiting in the send queue is dispatched, unless no connection is there to take it or it stops being
+\* wanted (answered, abandoned, context or socket closed)
+\* (a connection whose transport send failed is neither ready nor busy: it is on its way out - the core removes it)
+NoUsablePipe == \A p \in pipes : inflight[p] = NULL /\ \A i \in 1..Len(readyQ) : readyQ[i] # p
+QueuedDispatched == \A c \in Ctx : (queued[c] /\ Outstanding(c)) ~> (~queued[c] \/ ~Outstanding(c) \/ NoUsablePipe \/ sclosed)
+\* a Send that is waiting returns, unless the socket has no usable connection
+SendReturns == \A t \in Thread : (call[t] # NULL /\ call[t].op = "send") ~> (call[t] = NULL \/ NoUsablePipe)
+\* an outstanding request is never left with nobody looking after it: it comes to be queued, in a transport, or
+\* watched by an armed resend timer - or it stops being outstanding
+LookedAfter(c) == queued[c] \/ (reqMsg[c] # 0 /\ lastPipe[c] \in pipes) \/ \E tm \in timers : tm.k = "resend" /\ tm.c = c /\ tm.id = reqID[c]
+NeverOrphaned == \A c \in Ctx : Outstanding(c) ~> (~Outstanding(c) \/ LookedAfter(c))
 
 TypeOK ==
   /\ \A c \in Ctx : reqID[c] \in 0..MaxReq /\ reqMsg[c] \in 0..MaxReq /\ sendMsg[c] \in 0..MaxReq
